@@ -60,6 +60,7 @@ struct world
     bool syscrash = false;   // crash points are system calls of SQLite's VFS instead of statements (with flag crash)
     bool locks = false;   // lock sweep (library on disk): every call is first attempted while another connection holds a lock
     bool u8 = false;   // name tokens of the model are given to the library as names with multi-byte UTF-8 characters
+    int wal_first_same = -1;   // (with wal) the first load + close of the converted files left them byte-identical
     bool wal = false;  // (library on disk) the database files were switched to WAL journal mode by another client before the history
     bool like = false; // (with u8) the names are LIKE patterns / case variants of each other instead
     bool dead = false;  // rest of this execution is skipped
@@ -425,6 +426,14 @@ void start_world(world& w, const json& r)
                 sqlite3_close(c);
             }
             shim::reset_dbs();
+            // the very first load of the converted files is an observer like every later one: load + close between two closed states
+            std::string fa = file_digest(w);
+            {
+                auto probe = dj::engine::load_database(w.dir);
+                (void)dj::engine::database_exists(w.dir);
+            }
+            shim::reset_dbs();
+            w.wal_first_same = file_digest(w) == fa ? 1 : 0;
             w.db = dj::engine::load_database(w.dir);
         }
     }
@@ -1374,6 +1383,8 @@ int main(int argc, char** argv)
             }
             have_world = true;
             r["out"] = "ok";
+            if (w.wal_first_same >= 0)
+                r["walsame"] = w.wal_first_same == 1;
             observation_phase(w, r);
             vh::emit(r);
             continue;
